@@ -65,6 +65,49 @@ theorem equiv_refl : ∀ s : List (String × List String), equiv s s = true
   | [] => rfl
   | (n, r) :: as => by simp [equiv, sameScopes_refl, equiv_refl as]
 
+theorem sameSet_symm (a b : List String) : sameSet a b = sameSet b a := by
+  simp [sameSet, Bool.and_comm]
+
+theorem sameSet_trans (a b c : List String) (h1 : sameSet a b = true) (h2 : sameSet b c = true) : sameSet a c = true := by
+  simp only [sameSet, Bool.and_eq_true, List.all_eq_true, List.contains_iff_mem] at *
+  exact ⟨fun x hx => h2.1 x (h1.1 x hx), fun x hx => h1.2 x (h2.2 x hx)⟩
+
+theorem sameScopes_symm : ∀ s t : List (List String), sameScopes s t = sameScopes t s
+  | [], [] => rfl
+  | [], _ :: _ => rfl
+  | _ :: _, [] => rfl
+  | a :: as, b :: bs => by simp [sameScopes, sameSet_symm a b, sameScopes_symm as bs]
+
+theorem sameScopes_trans : ∀ s t u : List (List String), sameScopes s t = true → sameScopes t u = true → sameScopes s u = true
+  | [], [], [], _, _ => rfl
+  | [], [], _ :: _, _, h => by simp [sameScopes] at h
+  | [], _ :: _, _, h, _ => by simp [sameScopes] at h
+  | _ :: _, [], _, h, _ => by simp [sameScopes] at h
+  | _ :: _, _ :: _, [], _, h => by simp [sameScopes] at h
+  | a :: as, b :: bs, c :: cs, h1, h2 => by
+    simp only [sameScopes, Bool.and_eq_true] at *
+    exact ⟨sameSet_trans a b c h1.1 h2.1, sameScopes_trans as bs cs h1.2 h2.2⟩
+
+/-- `equiv` is an equivalence relation (reflexive above) -/
+theorem equiv_symm : ∀ s t : List (String × List String), equiv s t = equiv t s
+  | [], [] => rfl
+  | [], _ :: _ => rfl
+  | _ :: _, [] => rfl
+  | (n, r) :: as, (m, q) :: bs => by
+    simp only [equiv, sameScopes_symm (scopes r) (scopes q), equiv_symm as bs]
+    have : (n == m) = (m == n) := by simp [Bool.beq_comm]
+    rw [this]
+
+theorem equiv_trans : ∀ s t u : List (String × List String), equiv s t = true → equiv t u = true → equiv s u = true
+  | [], [], [], _, _ => rfl
+  | [], [], _ :: _, _, h => by simp [equiv] at h
+  | [], _ :: _, _, h, _ => by simp [equiv] at h
+  | _ :: _, [], _, h, _ => by simp [equiv] at h
+  | _ :: _, _ :: _, [], _, h => by simp [equiv] at h
+  | (n, r) :: as, (m, q) :: bs, (k, p) :: cs, h1, h2 => by
+    simp only [equiv, Bool.and_eq_true, beq_iff_eq] at *
+    exact ⟨⟨h1.1.1.trans h2.1.1, sameScopes_trans _ _ _ h1.1.2 h2.1.2⟩, equiv_trans as bs cs h1.2 h2.2⟩
+
 -- branch merging and reordering inside a scope keep a row equivalent; dropping an operation does not
 example : equiv [("f", ["a", "x", "b", "x", "fn{", "c", "}"])] [("f", ["b", "a", "x", "fn{", "c", "}"])] = true := by decide
 example : equiv [("f", ["a", "x", "b", "x"])] [("f", ["a", "b"])] = false := by decide
